@@ -4,7 +4,7 @@ use vcore::*;
 use wow_mpq::compression::{compress, decompress, decompress_secure};
 use wow_mpq::{SecurityLimits, SessionTracker};
 
-const SEL: [(&str, u8, bool); 12] = [
+const SEL: [(&str, u8, bool); 14] = [
     ("zlib", 0x02, true),
     ("bzip2", 0x10, true),
     ("lzma", 0x12, true),
@@ -17,6 +17,8 @@ const SEL: [(&str, u8, bool); 12] = [
     ("adpcm_mono", 0x40, false),
     ("adpcm_stereo", 0x80, false),
     ("adpcm_mono+zlib", 0x42, false),
+    ("adpcm_mono+pkware", 0x48, false),
+    ("adpcm_stereo+pkware", 0x88, false),
 ];
 
 fn inputs(tier: Tier) -> Vec<(String, Vec<u8>)> {
